@@ -8,7 +8,9 @@
    context" spelled out with <= and <.  [serial] / [parallel] are the models of the two sources of
    beddata.rs; [bw_write], [bw_write_multipass] the bigWig writer model of Model/BigWigWrite.v. *)
 From BT Require Import Base.Util Base.Float Model.RTree Model.BBIFile Model.BigWigWrite Model.Accept
-  Proofs.RTreeShape Proofs.AcceptParse Proofs.AcceptRules Proofs.AcceptParallel Proofs.WriterTotal.
+  Model.AcceptBed Proofs.RTreeShape Proofs.AcceptParse Proofs.AcceptRules Proofs.AcceptParallel Proofs.WriterTotal
+  Proofs.WriterTotalBed.
+From BT Require Model.BigBedWrite.
 Local Open Scope N_scope.
 
 (* ---- bigWig: the model writer's verdict, both pass modes, is the rule's verdict; and the rule
@@ -178,6 +180,50 @@ Theorem C13_writer_total : forall fp o sizes input, opts_ok o = true ->
 Proof. exact writer_total. Qed.
 Print Assumptions C13_writer_total.
 
+(* ---- the bigBed FILE writer (Model/BigBedWrite.v: the byte-exact model of BigBedWrite::write /
+   write_multipass, tied to the real code byte for byte by C02/C11).  [bb_items] forgets the rest
+   of each line (no rule looks at it); [schema_text] is the autoSql text write_pre stores (the
+   supplied one, else the library's BED3 text); [bb_file_rule o sizes autosql items] =
+     Err 80 when the option guards fail (check_options: block_size >= 2, items_per_slot >= 1),
+     else Err 43 when the autoSql text holds a NUL byte (CString::new in write_pre),
+     else [rule_verdict bb_val_class ..] of C13_bb_accept_iff.
+   No hypothesis: every option set, size table, autoSql byte string (parsable or not: the field
+   count falls back to 3) and entry list. ---- *)
+Theorem C13_bb_accept_iff_file : forall fp o sizes autosql input,
+  verdict (BigBedWrite.bb_write fp o sizes autosql input) = bb_file_rule o sizes autosql (bb_items input)
+  /\ verdict (BigBedWrite.bb_write_multipass fp o sizes autosql input) = bb_file_rule o sizes autosql (bb_items input)
+  /\ (bb_file_rule o sizes autosql (bb_items input) = Ok tt
+      <-> opts_ok o = true /\ has_nul (schema_text autosql) = false /\ input <> []
+          /\ stream_ok bb_good_val bb_good_pair (o_sort_all o) sizes [] None (bb_items input)).
+Proof. exact bb_accept_iff_file. Qed.
+Print Assumptions C13_bb_accept_iff_file.
+
+(* the bigBed write call, both pass modes, returns a file or an error value on ANY input: never
+   Panic (no empty data or zoom section reaches items_in_section[0]; every chromosome that was
+   given an id is in the size table when the chromosome tree is written), never Fuel (autoSql
+   parser: C19's fuel bound; index build; zoom tiling: C08's potential; level selection).  Outside
+   the option guards the call returns Err 80 before reading anything, so no hypothesis is needed. *)
+Theorem C13_bb_writer_total : forall fp o sizes autosql input,
+  ((exists f, BigBedWrite.bb_write fp o sizes autosql input = Ok f)
+   \/ (exists k, BigBedWrite.bb_write fp o sizes autosql input = Err k)) /\
+  ((exists f, BigBedWrite.bb_write_multipass fp o sizes autosql input = Ok f)
+   \/ (exists k, BigBedWrite.bb_write_multipass fp o sizes autosql input = Err k)).
+Proof. exact bb_writer_total. Qed.
+Print Assumptions C13_bb_writer_total.
+
+(* the same for the writer skeleton with ANY summary sweep and ANY zoom part that returns within the
+   guards (what C02's file theorems are parametrised by): its verdict is decided by the guards,
+   the autoSql text and the input pass alone *)
+Theorem C13_bb_write_gen_verdict : forall sweep zoom_part o sizes autosql input,
+  (2 <= o_bs o -> 1 <= o_ips o -> forall outs sum ds zp, exists r, zoom_part outs sum ds zp = Ok r) ->
+  verdict (BigBedWrite.bb_write_gen sweep zoom_part o sizes autosql input)
+  = bb_file_rule o sizes autosql (bb_items input).
+Proof.
+  intros sweep zoom_part o sizes autosql input Hz. unfold bb_file_rule.
+  rewrite (bb_write_gen_verdict sweep zoom_part o sizes autosql input Hz), bb_collect_rule. reflexivity.
+Qed.
+Print Assumptions C13_bb_write_gen_verdict.
+
 (* ---- examples: the hypotheses are satisfiable and the classes are told apart ---- *)
 Definition ex_opts : opts := {| o_compress := false; o_ips := 2; o_bs := 2; o_izoom := 10; o_maxzooms := 3;
                                o_manual := Some [0; 10; 10]; o_sort_all := true |}.
@@ -212,4 +258,46 @@ Example C13_example_bb :
         [(c1, {| e_start := 100; e_end := 100 |})]; [(c1, {| e_start := 5; e_end := 9 |}); (c1, {| e_start := 4; e_end := 9 |})];
         [(c1, {| e_start := 5; e_end := 4 |})] ]
   = [Ok tt; Err E_BB_START_GE_CHROM; Err E_BB_UNSORTED; Err E_BB_START_GT_END].
+Proof. vm_compute. reflexivity. Qed.
+
+(* bigBed file writer: an accepted input (an end beyond the chromosome, a nested entry, a
+   zero-length entry, two chromosomes, rest fields) is written by both pass modes; the refusals *)
+Definition bent (s e : N) (rest : list N) : BigBedWrite.entry :=
+  {| BigBedWrite.e_start := s; BigBedWrite.e_end := e; BigBedWrite.e_rest := rest |}.
+Definition ex_bed : list BigBedWrite.bitem :=
+  [(c1, bent 0 500 [120; 9; 53]); (c1, bent 0 3 []); (c1, bent 99 99 [121]); (c2, bent 5 7 [])].
+Example C13_example_bb_file_rule : bb_file_rule ex_opts ex_sizes None (bb_items ex_bed) = Ok tt.
+Proof. vm_compute. reflexivity. Qed.
+Example C13_example_bb_file_written :
+  (exists f, BigBedWrite.bb_write ieee ex_opts ex_sizes None ex_bed = Ok f)
+  /\ (exists f, BigBedWrite.bb_write_multipass ieee ex_opts ex_sizes None ex_bed = Ok f).
+Proof.
+  destruct (C13_bb_accept_iff_file ieee ex_opts ex_sizes None ex_bed) as (H1 & H2 & _).
+  rewrite C13_example_bb_file_rule in H1, H2. split.
+  - clear H2. destruct (BigBedWrite.bb_write ieee ex_opts ex_sizes None ex_bed); try discriminate H1. eauto.
+  - clear H1. destruct (BigBedWrite.bb_write_multipass ieee ex_opts ex_sizes None ex_bed); try discriminate H2. eauto.
+Qed.
+Definition ex_opts_bs1 : opts := {| o_compress := false; o_ips := 2; o_bs := 1; o_izoom := 10; o_maxzooms := 3;
+                                   o_manual := None; o_sort_all := true |}.
+Example C13_example_bb_file_classes :
+  [ bb_file_rule ex_opts_bs1 ex_sizes None (bb_items ex_bed);
+    bb_file_rule ex_opts ex_sizes (Some [116; 0; 116]) (bb_items ex_bed);
+    bb_file_rule ex_opts ex_sizes (Some [103; 97; 114; 98; 97; 103; 101; 40]) (bb_items ex_bed);
+    bb_file_rule ex_opts ex_sizes None (bb_items []);
+    bb_file_rule ex_opts ex_sizes None (bb_items [(c1, bent 100 100 [])]);
+    bb_file_rule ex_opts ex_sizes None (bb_items [(c1, bent 5 9 []); (c1, bent 4 9 [])]);
+    bb_file_rule ex_opts ex_sizes None (bb_items [(c1, bent 5 4 [])]);
+    bb_file_rule ex_opts ex_sizes None (bb_items [(c2, bent 0 1 []); (c1, bent 0 1 [])]);
+    bb_file_rule ex_opts ex_sizes None (bb_items [([99], bent 0 1 [])]) ]
+  = [Err E_OPTIONS; Err E_AUTOSQL_NUL; Ok tt; Err E_EMPTY; Err E_BB_START_GE_CHROM; Err E_BB_UNSORTED; Err E_BB_START_GT_END;
+     Err E_CHROM_ORDER; Err E_UNKNOWN_CHROM].
+Proof. vm_compute. reflexivity. Qed.
+(* the writer model itself, evaluated: the verdicts are those of the rule (instances of the theorem) *)
+Example C13_example_bb_file_evaluated :
+  map (fun r => verdict r)
+      [ BigBedWrite.bb_write ieee ex_opts_bs1 ex_sizes None ex_bed;
+        BigBedWrite.bb_write ieee ex_opts ex_sizes (Some [116; 0; 116]) ex_bed;
+        BigBedWrite.bb_write_multipass ieee ex_opts ex_sizes (Some [103; 97; 114; 98; 97; 103; 101; 40]) ex_bed;
+        BigBedWrite.bb_write ieee ex_opts ex_sizes None [(c1, bent 5 9 []); (c1, bent 4 9 [])] ]
+  = [Err E_OPTIONS; Err E_AUTOSQL_NUL; Ok tt; Err E_BB_UNSORTED].
 Proof. vm_compute. reflexivity. Qed.
